@@ -623,9 +623,10 @@ impl Interp {
                             3
                         }
                     }
-                    _ => 300,
+                    // a new block within the same second (sub-second block times)
+                    _ => 0,
                 };
-                Act::NextBlock { dt: dtv.max(1) }
+                Act::NextBlock { dt: dtv }
             }
             Op::SetOracle { v, knob } => {
                 let v = self.v_of(*v);
